@@ -66,6 +66,7 @@ def run(scn):
         stats["user_cmds"] += 1
         ucmds.append((op["we"], op["addr"]))
         if op["we"]:
+            t_cmd[op["id"]] = sim.cycles["usr"]
             stats["writes"] += 1
             ref.write(op["addr"], nb, word_of(op["id"], nb), op.get("sel", (1 << nb) - 1))
         else:
@@ -73,8 +74,14 @@ def run(scn):
             expect.append((op["id"], op["addr"], ref.read(op["addr"], nb)))
         sim.ev("ucmd", op["id"], op["we"], op["addr"])
 
+    t_cmd = {}
+    lead = [0]      # longest time (user cycles) by which a write command entered the crossing before its data did
+
     def on_wdata(op, data, sel, valid):
         uw.append((data, sel))
+        tc = t_cmd.pop(op["id"], None)
+        if tc is not None and sim.cycles["usr"] - tc > lead[0]:
+            lead[0] = sim.cycles["usr"] - tc
 
     got = [0]
 
@@ -108,7 +115,8 @@ def run(scn):
     cyc = sim.cycles
     idle_since = None
     wout = [0, 0]     # current / max number of writes accepted on the user side whose data strobe has not happened yet
-    viol.extra = lambda: {"max_writes_outstanding": wout[1], "wdata_depth": d.get("wdata_depth", 16)}
+    viol.extra = lambda: {"max_writes_outstanding": wout[1], "wdata_depth": d.get("wdata_depth", 16),
+                          "cmd_lead_user_cycles": max([lead[0]] + [sim.cycles["usr"] - t_ for t_ in t_cmd.values()])}
     while cyc["sys"] < cap:
         sim.step()
         o = stats["writes"] - mem.nwdone
@@ -180,8 +188,11 @@ def classify(scn, viol):
         if pc.get("cd", "sys") != "sys" and (viol.get("blind_strobes") or [0])[0] > 0 and (viol.get("xbar_writes_in_flight_max") or [0])[0] > 16:
             return "cdc-write-overrun"
         return None
+    # the write-data FIFO of the crossing could not take a word whose command it had already forwarded: either more writes in flight than
+    # it holds, or (slow user clock) it still *looked* full from the user side because the freed slots had not been synchronised back -
+    # seen as a write command entering the crossing at least one user cycle before its data (the master offers both together)
     if viol.get("oracle") in ("wdata_not_valid_at_strobe", "wdata_sequence", "wdata_count", "final_image", "hang", "read_data") \
-            and viol.get("max_writes_outstanding", 0) > viol.get("wdata_depth", 10 ** 9):
+            and (viol.get("max_writes_outstanding", 0) > viol.get("wdata_depth", 10 ** 9) or viol.get("cmd_lead_user_cycles", 0) >= 1):
         return "cdc-write-overrun"
     return None
 
